@@ -257,6 +257,10 @@ func genConformStyle(t *rapid.T, m *Model, el string) string {
 		}
 		ru := rapid.SampledFrom(rules).Draw(t, "sr")
 		val := rapid.SampledFrom(ruleSamples(ru, true)).Draw(t, "sv")
+		if ru.kind == "" && (prop == "font-family" || prop == "grid-template-areas") && rapid.Bool().Draw(t, "quotedSample") {
+			// white space inside a quoted string is significant
+			val = rapid.SampledFrom([]string{"'foo  bar'", "'a   b'", "'times new  roman'"}).Draw(t, "quoted")
+		}
 		if !cleanStyleValue.MatchString(val) || !ru.accepts(strings.ToLower(val)) {
 			continue
 		}
